@@ -259,9 +259,63 @@ Proof.
     rewrite Nat2N.id, (rinfo_consdir p kc kc true).
     destruct Qe as [Q|[Q|Q]]; [right; now left|right; now right|left].
     unfold if_of. fold (eg_rtr kc). apply N.eqb_neq in Q. now rewrite Q. }
-  apply (proc_quiet _ c now ing kx a e (p_src_ia q) (keeps_gflag kx a e) q s1 (eg_state kc xo)); try assumption.
-  - apply (src_ok_view q k k false r ing V Hk').
-  - unfold c. cbn [cfg_of c_ia]. exact Dst.
+  pose proof (src_ok_view q k k false r ing V Hk') as SO.
+  apply (proc_quiet _ c now ing kx a e (p_src_ia q) (keeps_gflag kx a e) q s1 (eg_state kc xo)); assumption.
+Qed.
+
+(** the egress router of an AS, for a flag that is not the egress flag of its hop *)
+Theorem flag_forward_sibling q k k0 kx a e :
+  View q k k true -> (S k < n)%nat -> crosses p k = true ->
+  ForwardStep.entry p k = k0 -> (1 <= k0)%nat -> crosses p (k0 - 1) = true -> asof k0 = asof k ->
+  in_rtr k0 <> eg_rtr k ->
+  (k <> kx \/ eg_flag k a e = false) ->
+  process_scion (macq (a_key (asof k))) (cfg_of (asof k) (eg_rtr k)) now (InSib (in_rtr k0 + 1))
+                (ScmpReturn.set_alerts kx a e q) =
+  phi_res (p_src_ia q) (gflag kx a e)
+          (process_scion (macq (a_key (asof k))) (cfg_of (asof k) (eg_rtr k)) now (InSib (in_rtr k0 + 1)) q).
+Proof.
+  intros V Hk C He K0 C0 As0 Hne Qe. assert (Hk' : (k < n)%nat) by lia.
+  destruct (mid_state q k k0 V Hk C He K0 C0 As0 Hne) as (Eq & E1 & E2 & Eif).
+  destruct (as_of_ok _ _ _ HG k Hk') as [Ak Ik].
+  set (s1 := mkSt q (rhop (hop p k)) (rinfo p k true (js k)) (peerhop p k) false 0) in *.
+  set (c := cfg_of (asof k) (eg_rtr k)) in *. set (ing := InSib (in_rtr k0 + 1)) in *.
+  rewrite <- (phi_flag kx a e q).
+  destruct (ingress_quiet ing kx a e (p_src_ia q) s1 (plain_rhop _)) as [I1 I2]; [now left|].
+  destruct (egress_quiet c kx a e (p_src_ia q) (eg_state k false) (plain_rhop _)) as [G1 G2].
+  { cbn [eg_state s_p s_inf]. change (p_curr_hf (render p pp k true)) with (N.of_nat k).
+    rewrite Nat2N.id, (rinfo_consdir p k k true).
+    destruct Qe as [Q|Q]; [right; now left|right; now right]. }
+  pose proof (src_ok_view q k k true (eg_rtr k) ing V Hk') as SO.
+  assert (D : (p_dst_ia q =? c_ia c)%N = false).
+  { unfold c. cbn [cfg_of c_ia]. rewrite Ik. apply (dst_not_local q k k true V Hk). }
+  apply (proc_quiet _ c now ing kx a e (p_src_ia q) (keeps_gflag kx a e) q s1 (eg_state k false)); assumption.
+Qed.
+
+(** the last router, for a flag that is not the ingress flag of the last hop *)
+Theorem flag_deliver q k ing r kx a e :
+  View q k k false -> S k = n -> arrives k ing ->
+  (k <> kx \/ in_flag k a e = false) ->
+  process_scion (macq (a_key (asof k))) (cfg_of (asof k) r) now ing (ScmpReturn.set_alerts kx a e q) =
+  phi_res (p_src_ia q) (gflag kx a e) (process_scion (macq (a_key (asof k))) (cfg_of (asof k) r) now ing q).
+Proof.
+  intros V Hn Ha Qi. assert (Hk : (k < n)%nat) by lia.
+  destruct (ingress_arrive mac t now p pp HG Hep Hexp n nsegs q k ing r V Hk Hk
+              (js_lt p Hs k Hk) Ha) as (q1 & Ein & V1 & _).
+  set (s1 := mkSt q1 (rhop (hop p k)) (rinfo p k true (js k)) (peerhop p k) false 0) in *.
+  apply ingress_pre_of_part in Ein.
+  destruct (as_of_ok _ _ _ HG k Hk) as [Ak Ik].
+  rewrite <- (phi_flag kx a e q).
+  destruct (ingress_quiet ing kx a e (p_src_ia q) s1 (plain_rhop _)) as [I1 I2].
+  { right. cbn [s1 s_p s_inf]. rewrite (v_ch _ _ _ _ _ _ _ _ V1), Nat2N.id, (rinfo_consdir p k k true).
+    destruct Qi as [Q|Q]; [now left|now right]. }
+  pose proof (src_ok_view q k k false r ing V Hk) as SO.
+  assert (D : (p_dst_ia q =? c_ia (cfg_of (asof k) r))%N = true).
+  { cbn [cfg_of c_ia]. rewrite Ik, (v_dst_ia _ _ _ _ _ _ _ _ V).
+    pose proof Hep as Hep'. unfold endpoints_ok in Hep'.
+    apply andb_true_iff in Hep' as [E _]. apply andb_true_iff in E as [E _].
+    apply andb_true_iff in E as [_ Ed]. apply N.eqb_eq in Ed. rewrite Ed.
+    replace (n - 1)%nat with k by lia. apply N.eqb_refl. }
+  apply (proc_quiet_local _ _ now ing kx a e (p_src_ia q) (keeps_gflag kx a e) q s1); assumption.
 Qed.
 
 End Trace.
@@ -279,4 +333,24 @@ Proof.
   apply build_inv in B as (lt & lraw & ck & _ & _ & _ & _ & _ & _ & _ & _ & _ & L4 & _).
   exists t0, cd, c1, c2, rest, ck. split; [exact E|]. rewrite L4. unfold reply_l4, reply_quote.
   now rewrite app_nil_r.
+Qed.
+
+(** the interface a router-alert request is about *)
+Definition alert_ifid (req : spreq) (ing : ingress) (eg : N) : N :=
+  match req with SpAlertIngress => ing_ifid ing | _ => eg end.
+
+Lemma alert_reply_content cmac c ing req eg x va ats r :
+  req = SpAlertIngress \/ req = SpAlertEgress ->
+  RouterScmp.slow_path cmac c ing req eg x va ats = RouterScmp.SReply r ->
+  exists ll t0 cd c1 c2 rest ck,
+    RouterScmp.last_layer (RouterScmp.sp_next x) (RouterScmp.payload x) = Some ll /\
+    snd ll = t0 :: cd :: c1 :: c2 :: rest /\
+    RouterScmp.r_l4 r = [RouterScmp.ScmpTracerouteReply; 0%N] ++ be 2 ck ++
+                        (firstn 4 rest ++ be 8 (c_ia c) ++ be 8 (alert_ifid req ing eg)).
+Proof.
+  intros HR H. unfold RouterScmp.slow_path in H.
+  destruct (_ || _); [discriminate|]. destruct (negb _); [discriminate|].
+  destruct (RouterScmp.last_layer _ _) as [ll|]; [|discriminate].
+  destruct HR as [-> | ->]; apply traceroute_content in H as (t0 & cd & c1 & c2 & rest & ck & E & L);
+    exists ll, t0, cd, c1, c2, rest, ck; auto.
 Qed.
